@@ -522,10 +522,13 @@ func (s *SortField) RequiresScoring() bool { return false }
 func (s *SortField) RequiresFields() []string { return []string{s.Field} }
 
 func (s *SortField) MarshalJSON() ([]byte, error) {
-	// see if simple format can be used
+	// see if simple format can be used, the field name must not read
+	// as a direction prefix or as one of the special sort names
 	if s.Missing == SortFieldMissingLast &&
 		s.Mode == SortFieldDefault &&
-		s.Type == SortFieldAuto {
+		s.Type == SortFieldAuto &&
+		!strings.HasPrefix(s.Field, "-") && !strings.HasPrefix(s.Field, "+") &&
+		s.Field != "_id" && s.Field != "_score" {
 		if s.Desc {
 			return json.Marshal("-" + s.Field)
 		}
